@@ -185,8 +185,8 @@ the `Print Assumptions` summary.
 | id | unbounded theorems [F] | bounded theorems [B] (domain in the statement) | decided per input inside Coq | numerical only |
 |---|---|---|---|---|
 | C01 | Qubit: simplify sound + canonical, `*`,`+`,`-`,scalar,`**` homomorphisms; Fermion: same; source Pauli table = model table (re-proved each run) | Majorana merge / sort (index sets < 5, words <= 4) | aliasing programs over 5 classes vs the heap model; Majorana arithmetic vs model and JW denotation | - |
-| C02 | `isclose` = per-term spec, symmetric, order / other-term independent | Majorana commutation test, `is_normal_ordered` = fixed points of normal ordering | ==, !=, isclose, predicates, tensor equality | - |
-| C03 | CAR in the Fock semantics; checker soundness; `C03_normal_ordered_term_sound` / `C03_normal_ordered_sound`: the model of fermionic normal ordering (double loop, recursive contraction, fuel) with exact accumulation preserves the denotation of every word of any length and of every operator | normal-ordering model sound / ordered / idempotent for all words <= 4 (fermion 3 modes; boson, quad hbar 2 and 1/2) | all three algebras, InteractionOperator, chemist_ordered, reorder, canonicity pairs | - |
+| C02 | `isclose` = per-term spec, symmetric, order / other-term independent; `C02_is_normal_ordered_implies_fixed` (every word length) | Majorana commutation test, `is_normal_ordered` = fixed points of normal ordering | ==, !=, isclose, predicates, tensor equality | - |
+| C03 | CAR in the Fock semantics; checker soundness; `C03_normal_ordered_term_sound` / `C03_normal_ordered_sound`: the model of fermionic normal ordering (double loop, recursive contraction, fuel) with exact accumulation preserves the denotation of every word of any length and of every operator; `C03_normal_ordered_is_ordered` (insertion-sort invariant: every returned term is in normal order, with the code's tolerance), `C03_normal_ordered_word_fixed`, `C03_normal_ordering_idempotent_on_terms` | normal-ordering model sound / ordered / idempotent for all words <= 4 (fermion 3 modes; boson, quad hbar 2 and 1/2) | all three algebras, InteractionOperator, chemist_ordered, reorder, canonicity pairs | - |
 | C04 | JW ladder / operator soundness; `C04_majorana_jw_sound` (every MajoranaOperator: gamma_2q = a_q + a+_q, gamma_2q+1 = i(a+_q - a_q)); checker soundness | - | every fast path (InteractionOperator, DCH, one_body/two_body on all index tuples < 4, reverse JW); dual-basis jellium / plane-wave helpers on cubic, rectangular and sheared cells (tolerance 1e-9 inside Coq) | - |
 | C05 | `C05_bk_ladder_linear` (every n, mode, state, given decidable mask identities); `C05_bk_sound_upto_128` (every operator and state, n <= 128), encoding injective; `C05_bkt_sound_upto_40` (tree variant) | encoding validity for every n_qubits <= 7 (BK and BK-tree); Fenwick set identities n_qubits <= 128 | index sets (n <= 48/128), images, operators, encoding property on outputs, SRL all (i,j) n <= 16/40, InteractionOperator path | - |
 | C06 | product = composition (basis of MatrixOf); `C06_linear_operator_term_correct` (the vector-splitting algorithm of LinearQubitOperator, modelled on perfect binary trees, realises the Pauli semantics for every n, canonical term, vector), `C06_linear_operator_is_sum_of_terms` | - | every matrix entry of sparse operators vs MatrixOf / Bargmann; matvec (also against the model `lqo`), parallel matvec (forced orders), diagonal, expectation, variance | quad matrices, eigenspectrum traces, ARPACK wrappers (get_ground_state, get_gap), density matrix, inner product |
@@ -337,6 +337,23 @@ needs 8 bins of prime length 5, outside the enumerated symmetric-variant range);
 unexpected load failure to a model mismatch instead of crashing.  The second round (seeds named
 `*_r2_*`, each in a different function than the first) was caught at once for 11 properties; the 9 that
 were missed led to the extensions noted in the table, and one of them exposed the open finding D24.
+Rounds 3 to 7 (`*_r3_*` .. `*_r7_*`) asked each time for a different function and for specific kinds of
+mistake (aliasing, dtype, ignored options, boundary sizes, rarely used entry points); the share caught at
+the first run rose from about 55 % to 70 %, and every miss was turned into a check extension (column
+"detected" of the table).
+
+**Harmless rewrites (false-alarm experiment).**  The converse was tested too: for every property a fresh
+sub-agent rewrote three to six of the anchored functions in a behaviour-preserving way (loops to
+comprehensions, recursion to iteration, extracted / renamed private helpers, vectorised numpy code,
+caching) and validated the rewrite itself by a differential test of several hundred to several thousand
+inputs against the original tree plus the full test suite.  `tools/trybenign.sh <id> <worktree>` runs
+the check on such a tree; the checks must stay quiet (exit 0, no VIOLATION line).  Result: see
+`seeded/BENIGN.md` (written from those runs) - no check raised an alarm on a behaviour-preserving
+rewrite.  The parts of the machinery most exposed to harmless rewrites are the `gen.py` obligations
+(the translator is fail-closed: an unrecognised shape of the Pauli product table or of the Hubbard
+neighbour functions is reported as a broken obligation, ending in `no-failing-input-found`, as the
+task prescribes) and the recorded-event comparisons (swap-network callback order, shuffle calls), which
+follow documented behaviour only.
 '''
     txt += LIMITS
     open(os.path.join(V, 'DESIGN.md'), 'w').write(txt)
